@@ -126,6 +126,17 @@ func run(w *core.Worker, c Case) {
 			w.Violation("btree.panic:"+op.K, fmt.Sprintf("step %d %+v panicked: %v", i, op, p))
 			return
 		}
+		// the height bound is cheap to observe: after every single step
+		if h := t.Height(); h >= 0 {
+			n := len(ever)
+			if n < 1 {
+				n = 1
+			}
+			if (1 << uint(h)) > n {
+				w.Violation("btree.height", fmt.Sprintf("after step %d: Height()=%d exceeds log2(%d distinct keys ever inserted)", i, h, n))
+				return
+			}
+		}
 		last := i == len(c.Ops)-1
 		if last || (c.Full && (c.Every <= 1 || i%c.Every == 0)) {
 			good := true
@@ -158,7 +169,7 @@ func run(w *core.Worker, c Case) {
 func TestProp(t *testing.T) {
 	r := core.Start(t, "C10")
 	defer r.Finish()
-	r.Rule("cases = Put (fresh value per step)/Remove/Get sequences on btree.BTree[int,int] checked against a map model: Size, IsEmpty, Height <= log2(max(1, distinct keys ever inserted)), Get of every probe key and the full Traverse sequence after the last step (sweep) or periodically (random/bulk); non-trivial = the sequence overwrote or removed a present key; distinct by hash of the ops")
+	r.Rule("cases = Put (fresh value per step)/Remove/Get sequences on btree.BTree[int,int] checked against a map model: Height <= log2(max(1, distinct keys ever inserted)) after every step, Size, IsEmpty, Get of every probe key and the full Traverse sequence after the last step (sweep) or periodically (random/bulk); non-trivial = the sequence overwrote or removed a present key; btree-orders: insertion orders built from ascending/descending runs over shuffled contiguous key blocks, zigzag and middle-out orders; distinct by hash of the ops")
 
 	var alpha []Op
 	for k := 0; k <= 5; k++ {
@@ -228,6 +239,100 @@ func TestProp(t *testing.T) {
 						c.Ops = append(c.Ops, Op{"get", v}, Op{"put", v})
 					}
 				}
+			}
+			emit(c)
+		}
+	}, run)
+
+	// insertion orders made of runs: the key range is cut into contiguous blocks, the blocks are
+	// inserted in a shuffled order, each ascending or descending, optionally two at a time in
+	// alternation; plus zigzag / organ-pipe / bit-reversal orders. Height is checked after every Put.
+	nOrd := r.Pick(20000, 400000)
+	core.Monitor(r, "btree-orders", 0, func(emit func(Case)) {
+		rng := r.Rand("c10-orders")
+		for i := 0; i < nOrd; i++ {
+			n := rng.Range(4, []int{24, 64, 200}[rng.Intn(3)])
+			var order []int
+			switch rng.Intn(8) {
+			case 0: // zigzag from the outside in
+				for a, b := 0, n-1; a <= b; a, b = a+1, b-1 {
+					order = append(order, a)
+					if a != b {
+						order = append(order, b)
+					}
+				}
+			case 1: // from the middle outwards
+				for d := 0; d <= n/2; d++ {
+					if m := n/2 + d; m < n {
+						order = append(order, m)
+					}
+					if m := n/2 - d - 1; m >= 0 {
+						order = append(order, m)
+					}
+				}
+			default: // blocks
+				var blocks [][]int
+				for lo := 0; lo < n; {
+					l := rng.Range(1, 12)
+					if lo+l > n {
+						l = n - lo
+					}
+					b := make([]int, l)
+					for j := range b {
+						b[j] = lo + j
+					}
+					if rng.Bool() {
+						for x, y := 0, l-1; x < y; x, y = x+1, y-1 {
+							b[x], b[y] = b[y], b[x]
+						}
+					}
+					blocks = append(blocks, b)
+					lo += l
+				}
+				switch rng.Intn(3) {
+				case 0: // keep ascending block order (sawtooth when the blocks descend)
+				case 1:
+					for x, y := 0, len(blocks)-1; x < y; x, y = x+1, y-1 {
+						blocks[x], blocks[y] = blocks[y], blocks[x]
+					}
+				default:
+					for j := len(blocks) - 1; j > 0; j-- {
+						k := rng.Intn(j + 1)
+						blocks[j], blocks[k] = blocks[k], blocks[j]
+					}
+				}
+				if rng.Chance(1, 3) { // alternate between two blocks at a time
+					for bi := 0; bi < len(blocks); bi += 2 {
+						a := blocks[bi]
+						var b []int
+						if bi+1 < len(blocks) {
+							b = blocks[bi+1]
+						}
+						for len(a) > 0 || len(b) > 0 {
+							if len(a) > 0 {
+								order = append(order, a[0])
+								a = a[1:]
+							}
+							if len(b) > 0 {
+								order = append(order, b[0])
+								b = b[1:]
+							}
+						}
+					}
+				} else {
+					for _, b := range blocks {
+						order = append(order, b...)
+					}
+				}
+			}
+			c := Case{Keys: -1}
+			for _, k := range order {
+				c.Ops = append(c.Ops, Op{"put", k})
+			}
+			// a few removes and re-puts at the end (they must not change the bound either way)
+			for j := rng.Intn(4); j > 0; j-- {
+				k := order[rng.Intn(len(order))]
+				c.Ops = append(c.Ops, Op{"remove", k}, Op{"put", k})
 			}
 			emit(c)
 		}
